@@ -402,9 +402,15 @@ func judgeMitm(m manip, o *sessOutcome, keyP, keyV *ecdsa.PrivateKey) (fs []find
 	if len(o.delivered) < intactPlain {
 		add("intact-prefix-not-delivered", fmt.Sprintf("only %d bytes delivered although %d frames (%d bytes) arrived unaltered and in place", len(o.delivered), intactFrames, intactPlain))
 	}
-	if bytes.HasPrefix(o.orig, o.fed) {
-		// pure cut of the tail: nothing to detect, the reader may just stall
-		return fs, "cut:" + ec
+	// What follows the intact frames: if it is less than one whole frame the reader cannot have
+	// anything to verify and may only stall (a cut, or a short piece of garbage at the very end);
+	// as soon as one whole (necessarily wrong) frame is available it must be refused with an error.
+	rest := len(o.fed) - (base + intactFrames*frameSize)
+	if rest < frameSize {
+		if bytes.HasPrefix(o.orig, o.fed) {
+			return fs, "cut:" + ec
+		}
+		return fs, "short-garbage-tail:" + ec
 	}
 	if ec == "stall" || ec == "none" {
 		add("manipulation-undetected", fmt.Sprintf("the whole manipulated stream was consumed without an error (%d bytes delivered)", len(o.delivered)))
